@@ -5,12 +5,13 @@ from ..core import f2b, b2f, run_harness, run_driver
 from ..cmp import cmp_record, bits_close
 from .. import gen, oracle, graphs
 
-MODULE = "Momtrop.Props.C03"
-THEOREMS = ["Momtrop.C03.fromGraph_fields", "Momtrop.C03.genDod_empty", "Momtrop.C03.genDod_nonempty", "Momtrop.C03.preEntry_flags", "Momtrop.C03.numVariables_eq", "Momtrop.C03.spanning_iff", "Momtrop.C03.spanning_nil", "Momtrop.C03.loopNumber_nil", "Momtrop.C03.component_search_exact", "Momtrop.C03.first_component", "Momtrop.C03.components_are_classes", "Momtrop.C03.same_component_iff", "Momtrop.C03.component_mask_bits", "Momtrop.C03.loopNumber_is_cyclomatic", "Momtrop.C03.subset_edges_ok"]
+MODULE = "Momtrop.Props.C03Step"
+THEOREMS = ["Momtrop.C03.fromGraph_fields", "Momtrop.C03.genDod_empty", "Momtrop.C03.genDod_nonempty", "Momtrop.C03.preEntry_flags", "Momtrop.C03.numVariables_eq", "Momtrop.C03.spanning_iff", "Momtrop.C03.spanning_nil", "Momtrop.C03.loopNumber_nil", "Momtrop.C03.component_search_exact", "Momtrop.C03.first_component", "Momtrop.C03.components_are_classes", "Momtrop.C03.same_component_iff", "Momtrop.C03.component_mask_bits", "Momtrop.C03.loopNumber_is_cyclomatic", "Momtrop.C03.subset_edges_ok", "Momtrop.C03.weightSum_pop", "Momtrop.C03.genDod_step", "Momtrop.C03.genDod_step_bool"]
 RULE = ("(i) every multigraph with E<=3 (quick) / E<=4 (thorough) edges on 4 vertex slots incl. self-loops and parallel edges, "
         "random u8 relabelling, several mass patterns and external sets (incl. an untouched vertex), all 2^E subsets via the "
         "hook; (ii) catalogue + random graphs up to E=6 (quick) / 8 (thorough), D=1..6, accepted ones through the full table. "
-        "Non-trivial: >=2 edges and (parallel edge or self-loop or >=2 components or mixed masses or externals != touched vertices)")
+        "Non-trivial: >=2 edges and (parallel edge or self-loop or >=2 components or mixed masses or externals != touched vertices)"
+        " (iii) public getters (get_num_edges, iter_edge_weights, get_dod, get_dimension) of samplers built through Graph::build_sampler with a fundamental, an over-long, a short and an empty signature; tiny-weight variants; vertex labels colliding modulo powers of two, labels 0 and 255, duplicate entries in `externals`; the table correspondence with the model is bit for bit.")
 ASSUMPTIONS = ["generalized_dod compared with the exact rational value with tolerance (E+4) eps x (subset weight sum + loops D/2 [+ |dod| + total weight sum + L D/2 when spanning])"]
 
 
@@ -61,13 +62,65 @@ def run(ctx):
                               expected={"loops": loops, "mms": sp, "comps": exp_comps},
                               observed={"loops": a["loops"][mask], "mms": a["mms"][mask], "comps": a["comps"][mask]})
                 break
+        else:
+            # premise of the sector-density theorem (C01Sector.Consistent): removing one edge lowers the loop number by 0 or 1 and can
+            # only LOSE the spanning property - on the implementation's own flags, every subset and every edge of it
+            for mask in range(1, 1 << n):
+                for e in range(n):
+                    if mask >> e & 1:
+                        sub = mask & ~(1 << e)
+                        ctx.count("removal_steps_checked")
+                        if a["loops"][mask] - a["loops"][sub] not in (0, 1) or (a["mms"][sub] and not a["mms"][mask]):
+                            ctx.violation(f"removing edge {e} from subset {mask:#b}: loop number {a['loops'][mask]} -> {a['loops'][sub]}, "
+                                          f"spanning {a['mms'][mask]} -> {a['mms'][sub]} (a removal lowers the loop number by 0 or 1 and never gains spanning)",
+                                          r, observed={"loops": [a["loops"][mask], a["loops"][sub]], "mms": [a["mms"][mask], a["mms"][sub]]})
+                            break
     # ---------------- (ii) full tables
     cases = graphs.case_stream(rng, 60 if ctx.quick else 500, max_e=6 if ctx.quick else 8, accepted_fraction=0.85)
+    # vertex labels that differ by exactly a power of two (8..128), in every run
+    for nm, edges in gen.collision_labelled(rng):
+        for _ in range(2):
+            c2 = graphs.make_case(rng, edges, rng.randint(1, 6), want=True)
+            if c2 is not None:
+                c2 = dict(c2); c2["name"] = nm; cases.append(c2)
     # variants with one tiny propagator power (a generalised dod far below f64::EPSILON is still a positive number, not zero)
     for c0 in list(cases[: (10 if ctx.quick else 60)]):
         w = list(c0["weights"]); w[rng.randrange(len(w))] = 10.0 ** -rng.uniform(17, 300)
         dod, Lf, table = oracle.table_oracle(c0["edges"], w, c0["massive"], c0["ext"], c0["D"])
         cases.append(dict(c0, weights=w, dod=dod, loops=Lf, table=table, accepted=not oracle.divergent_subsets(table), name=c0.get("name", "") + "+tiny_weight"))
+    # weight sums a few ulps away from D L/2 (overall dod ~ +-1e-16, not 0) and from the value that makes a SUBGRAPH logarithmic:
+    # the stored numbers are the rounded differences themselves, never snapped to 0
+    import math
+    for c0 in list(cases[: (12 if ctx.quick else 80)]):
+        n0 = len(c0["edges"])
+        if n0 < 2:
+            continue
+        w = [rng.choice([0.3, 0.6, 0.7, 0.9, 1.1, 1.3]) + 0.1 * rng.randint(0, 3) for _ in range(n0)]
+        target = c0["D"] * c0["loops"] / 2.0 + rng.choice([0.0, 0.0, 1.0])
+        rest = math.fsum(w[:-1])
+        last = target - rest
+        if last <= 0.05:
+            continue
+        for _ in range(rng.randint(0, 3)):
+            last = math.nextafter(last, rng.choice([0.0, 10.0]))
+        w[-1] = last
+        dod, Lf, table = oracle.table_oracle(c0["edges"], w, c0["massive"], c0["ext"], c0["D"])
+        cases.append(dict(c0, weights=w, dod=dod, loops=Lf, table=table, accepted=not oracle.divergent_subsets(table), name="near_integer_dod"))
+    # `externals` lists with 64 and more entries (labels are u8: detached labels and repeated entries are legal)
+    for c0 in list(cases[: (6 if ctx.quick else 30)]):
+        verts = sorted(set(v for e in c0["edges"] for v in e))
+        for mode in ("detached", "repeated"):
+            if mode == "detached":
+                pool = [v for v in range(256) if v not in verts]
+                rng.shuffle(pool)
+                ext = list(c0["ext"]) + pool[: rng.choice([64, 65, 70, 130]) - len(c0["ext"])]
+            else:
+                if not c0["ext"]:
+                    continue
+                ext = [rng.choice(c0["ext"]) for _ in range(rng.choice([64, 65, 100]))] + list(c0["ext"])
+            rng.shuffle(ext)
+            dod, Lf, table = oracle.table_oracle(c0["edges"], c0["weights"], c0["massive"], ext, c0["D"])
+            cases.append(dict(c0, ext=ext, dod=dod, loops=Lf, table=table, accepted=not oracle.divergent_subsets(table), name="many_externals_" + mode))
     reqs = [graphs.request(c) for c in cases]
     impl = run_harness(reqs)
     model = run_driver([dict(r, gammas=a.get("gammas", [])) for r, a in zip(reqs, impl)])
@@ -118,7 +171,9 @@ def run(ctx):
         n = len(c["edges"])
         Sg, _ = kin.fundamental_signature(rng, c["edges"])
         L = len(Sg[0]) if Sg else 0
-        for variant, sig in (("fundamental", Sg), ("extra_row", Sg + [[0] * L]), ("missing_row", Sg[:-1]), ("empty", [])):
+        for variant, sig in (("fundamental", Sg), ("extra_row", Sg + [[0] * L]), ("missing_row", Sg[:-1]), ("empty", []),
+                             ("extra_column", [row + [0] for row in Sg]), ("two_extra_columns", [row + [1, -1] for row in Sg]),
+                             ("missing_column", [row[:-1] for row in Sg])):
             breqs.append(dict(graphs.request(c), op="build", sig=sig)); binfo.append((c, a, variant))
     for r, b, (c, a, variant) in zip(breqs, run_harness(breqs), binfo):
         n = len(c["edges"])
